@@ -46,8 +46,9 @@ B(k) == IF k < 0 THEN NoB ELSE Nb(k)
 (*  "class" : class C { let n: Digit; items: elem{..n..} }                  *)
 (*  "tmpl"  : T(n) = elem{..n..}; start = let k = Digit in T(k)             *)
 (*  "sep"   : Sep(elem, sep, options)                                       *)
-NamedForms == {"nn", "n_", "_n", "0n", "n3", "pp", "_p", "p_"}      \* {n} {n,} {,n} {0,n} {n,3} {`n-1`} {,`n-1`} {`n-1`,}
+NamedForms == {"nn", "n_", "_n", "0n", "n3", "pp", "_p", "p_", "oo", "_o"}   \* {n} {n,} {,n} {0,n} {n,3} {`n-1`} {,`n-1`} {`n-1`,} {`n or 2`} {,`n or 2`}
 NMinus1 == <<"py", <<"sub", <<"var", "n">>, 1>>>>
+NOr2 == <<"py", <<"or", <<"var", "n">>, 2>>>>          \* a bound whose outermost Python operator binds less tightly than a comparison
 NamedRep(x, f) ==
     CASE f = "nn" -> Rep(x, Nm("n"), Nm("n"))
       [] f = "n_" -> Rep(x, Nm("n"), NoB)
@@ -57,6 +58,8 @@ NamedRep(x, f) ==
       [] f = "pp" -> Rep(x, NMinus1, NMinus1)
       [] f = "_p" -> Rep(x, NoB, NMinus1)
       [] f = "p_" -> Rep(x, NMinus1, NoB)
+      [] f = "oo" -> Rep(x, NOr2, NOr2)
+      [] f = "_o" -> Rep(x, NoB, NOr2)
 
 VARIABLES kind, el, sp, lo, hi, nf, opts, ctx, done
 vars == <<kind, el, sp, lo, hi, nf, opts, ctx, done>>
@@ -72,6 +75,8 @@ Init ==
           /\ lo \in -1..3 /\ hi \in -1..3 /\ (hi >= 0 => lo <= hi)
        \/ /\ kind \in {"let", "letarg", "class", "tmpl"} /\ sp = 1 /\ lo = 0 /\ hi = 0
           /\ nf \in NamedForms /\ opts = <<TRUE, FALSE, TRUE, FALSE>>
+       \/ /\ kind = "let2" /\ sp = 1 /\ lo = 0 /\ hi = 0 /\ el \in {1, 2} /\ nf \in {"nn", "_n"}
+          /\ opts = <<TRUE, FALSE, TRUE, FALSE>>
        \/ /\ kind = "letctx" /\ sp = 1 /\ lo = 0 /\ hi = 0        \* the context is INSIDE the let: the list itself is the alternative
           /\ nf \in NamedForms /\ opts = <<TRUE, FALSE, TRUE, FALSE>> /\ ctx # 0
        \/ /\ kind = "sep" /\ lo = 0 /\ hi = 0 /\ nf = ""
@@ -85,6 +90,9 @@ Core ==
       [] kind = "letctx" -> Let("n", Digit, Ctx(ctx, NamedRep(Elems[el], nf)))
          \* the repetition is (part of) a compound argument, which the generator moves into a helper function
       [] kind = "letarg" -> Let("n", Digit, Call("Id", <<Pos(Seq2(NamedRep(Elems[el], nf), Opt(Str(<<semi>>))))>>))
+         \* two repetitions with name-dependent bounds, one directly inside the element of the other (rows of cells)
+      [] kind = "let2" -> Let("n", Digit, Let("k", Digit,
+                              Rep(Left(Rep(Elems[el], Nm("k"), Nm("k")), Str(<<semi>>)), IF nf = "nn" THEN Nm("n") ELSE NoB, Nm("n"))))
       [] kind = "class" -> Ref("C")
       [] kind = "tmpl"  -> Let("k", Digit, Call("T", <<Pos(Ref("k"))>>))
       [] kind = "sep"   -> Sep(Elems[el], Seps[sp], opts)
@@ -109,7 +117,16 @@ WithDigits(ts, i) ==
 
 DigitTexts == WithDigits(Bodies, 1) \o << <<>>, <<a>>, <<a, a>> >>
 
-Texts == IF kind \in {"let", "letarg", "class", "tmpl", "letctx"} THEN DigitTexts ELSE Bodies
+(* two leading digits (rows, cells per row) and a body of cells and row ends *)
+RowBodies == TextSeqUpTo(<<a, semi>>, 5) \o << <<a, a, semi, a, a, semi>>, <<a, b, semi, a, b, semi>>, <<a, a, a, semi, a, a, a, semi>>,
+                                               <<a, semi, a, semi, a, semi>>, <<a, a, semi, a, semi>> >>
+RECURSIVE WithTwoDigits(_, _)
+WithTwoDigits(ts, i) ==
+    IF i > Len(ts) THEN <<>>
+    ELSE [j \in 1..9 |-> <<48 + ((j - 1) \div 3), 48 + ((j - 1) % 3)>> \o ts[i]] \o WithTwoDigits(ts, i + 1)
+
+Texts == IF kind \in {"let", "letarg", "class", "tmpl", "letctx"} THEN DigitTexts
+         ELSE IF kind = "let2" THEN WithTwoDigits(RowBodies, 1) ELSE Bodies
 
 Step == /\ ~done
         /\ done' = TRUE
